@@ -318,7 +318,7 @@ Proof.
   apply cut_prefix.
 Qed.
 
-Example pause_in_data_ends_session :
+Example pause_at_line_boundary_ends_session :
   let o := {| t_mail := []; t_rcpt := []; t_mail_hook := []; t_rcpt_hook := []; t_hdr := []; t_msg_hook := [] |} in
   let c := {| pol := {| def_accept := true; accept_l := []; reject_l := [];
                         def_store := true; store_l := []; discard_l := [];
